@@ -140,9 +140,6 @@ DEFS = {
             # The object is complete only once __init__ has run; the wrapper around __init__ checks the invariants.
 '''),
     ],
-    "seeded/C14_new_wrapper_kwargs_only_ctor": [
-        (CHK, NEW_CALL, NEW_CALL.replace("and len(args) > 0\n", "and len(args) > 1\n")),
-    ],
     "mutants/c03_fix_new_wrapper_reverted": [
         (CHK, NEW_CALL + '''                # A derived class defines __init__: the remaining arguments are meant for it. ``object.__new__``
                 # accepts them only as long as __new__ is not overridden, which this very wrapper does.
@@ -511,13 +508,6 @@ for _text_limit in ("maxstring", "maxother"):
                 setattr(cls, "__init__", wrapper)
 """),
     ],
-    "mutants/c14_fix_builtin_sibling_slots_reverted": [
-        (CHK, """                inspect.isfunction(native)
-                or isinstance(native, (property, _SLOT_WRAPPER_TYPE))
-""", """                inspect.isfunction(native)
-                or isinstance(native, property)
-"""),
-    ],
     "mutants/c16_fix_invariant_added_once_reverted": [
         ("icontract/_decorators.py", "        if not any(existing is self._invariant for existing in invariants):\n", "        if True:\n"),
     ],
@@ -632,14 +622,14 @@ for _text_limit in ("maxstring", "maxother"):
 """, ""),
     ],
     "mutants/c19_fix_async_condition_in_disguise_reverted": [
-        ("icontract/_decorators.py", "            or inspect.isasyncgenfunction(condition)\n", ""),
+        ("icontract/_decorators.py", "            or inspect.isasyncgenfunction(invoked)\n", ""),
     ],
     "mutants/c19_async_inv_accepted_unless_call": [
-        ("icontract/_decorators.py", """                    or inspect.isasyncgenfunction(getattr(condition, "__call__", None))
+        ("icontract/_decorators.py", """                    or inspect.isasyncgenfunction(getattr(invoked, "__call__", None))
                 )
             )
         ):
-""", """                    or inspect.isasyncgenfunction(getattr(condition, "__call__", None))
+""", """                    or inspect.isasyncgenfunction(getattr(invoked, "__call__", None))
                 )
             )
         ) and check_on == InvariantCheckEvent.CALL:
@@ -740,6 +730,60 @@ for _text_limit in ("maxstring", "maxother"):
         ("icontract/_recompute.py", """                        for key in kw.keys():
                             val = kw[key]
 """, """                        for key, val in kw.items():
+"""),
+    ],
+    "mutants/c14_fix_special_method_copies_call_the_default_again": [
+        (CHK, """        if name not in cls.__dict__ and func is getattr(object, name, None):
+            func = _defer_to_next_in_mro(cls=cls, name=name, default=func)
+
+""", ""),
+    ],
+    "mutants/c14_fix_new_copy_calls_object_new_again": [
+        (CHK, """            if new_func is object.__new__ and "__new__" not in cls.__dict__:
+                new_func = _defer_new_to_next_in_mro(cls=cls)
+
+""", ""),
+    ],
+    "mutants/c06_fix_duplicate_keyword_reverted": [
+        ("icontract/_recompute.py", """                            if key in kwargs:
+                                # Python does not merge the keyword arguments silently either.
+                                raise TypeError(
+                                    "{}() got multiple values for keyword argument {!r}".format(
+                                        getattr(func, "__name__", func), key
+                                    )
+                                )
+
+""", ""),
+        ("icontract/_recompute.py", """                    if keyword.arg in kwargs:
+                        raise TypeError(
+                            "{}() got multiple values for keyword argument {!r}".format(
+                                getattr(func, "__name__", func), keyword.arg
+                            )
+                        )
+
+""", ""),
+    ],
+    "seeded/C06_r2_fstring_ascii_conversion_as_repr": [
+        ("icontract/_recompute.py", """            elif node.conversion == 114:
+                converted = repr(recomputed_value)
+            elif node.conversion == 97:
+                converted = ascii(recomputed_value)
+""", """            elif node.conversion in (114, 97):
+                # Both ``!r`` and ``!a`` format the representation of the value.
+                converted = repr(recomputed_value)
+"""),
+    ],
+    "mutants/c10_fix_instance_marked_after_new_reverted": [
+        (CHK, """        instance_mark = _Mark(flow, id(instance))
+        try:
+            _IN_PROGRESS.set(_get_in_progress() | {instance_mark})
+
+            for invariant in instance.__class__.__invariants__:
+                _assert_invariant(contract=invariant, instance=instance)
+        finally:
+            instance_mark.active = False
+""", """        for invariant in instance.__class__.__invariants__:
+            _assert_invariant(contract=invariant, instance=instance)
 """),
     ],
     "seeded/C04_r3_async_pre_returns_at_first_failed_group": [
